@@ -1,14 +1,14 @@
 (* Correspondence runner for C08.  The round-trip law is judged directly on what the
    implementation returned: 0 ok, 1 impl <> model, 2 the law is violated. *)
 From Coq Require Import List NArith Bool String.
-From GQL Require Import Base.Bytes Syntax.Lexer Syntax.Ast Syntax.Parser Syntax.Printer.
+From GQL Require Import Base.Bytes Syntax.Lexer Syntax.Ast Syntax.Parser Syntax.Printer Proofs.SyntaxComplete Proofs.SyntaxRender.
 From GQL Require Export Run.C03run.
 Import ListNotations.
 Open Scope N_scope.
 
 Inductive c08case :=
-| RoundTrip (orig : gts) (printed : string) (reparsed : option gts) (stable : bool) (unchanged : bool)
-    (* orig = the parsed AST, printed = printer.Print(orig), reparsed = parser.Parse(printed),
+| RoundTrip (src : string) (orig : gts) (printed : string) (reparsed : option gts) (stable : bool) (unchanged : bool)
+    (* src = the source, orig = the parsed AST, printed = printer.Print(orig), reparsed = parser.Parse(printed),
        stable = the print of reparsed equals printed, unchanged = the AST is the same before and after Print *)
 | NoEdit (unchanged : bool).
 
@@ -27,7 +27,7 @@ Fixpoint contains (needle hay : bytes) : bool :=
 Definition check (c : c08case) : N :=
   match c with
   | NoEdit unchanged => if unchanged then 0 else 2
-  | RoundTrip orig printed reparsed stable unchanged =>
+  | RoundTrip src orig printed reparsed stable unchanged =>
     if negb unchanged then 2
     else
       match reparsed with
@@ -43,9 +43,22 @@ Definition check (c : c08case) : N :=
           match parse (unhex printed) with
           | Ok (d, _) =>
             if negb (gt_eqb false (g_doc d) (conv re)) then 1
-            else if forallb (fun s => match quote_string s with
+            else if negb (forallb (fun s => match quote_string s with
                                       | Ok q => contains q (unhex printed) || contains [34; 34; 34] (unhex printed)
-                                      | _ => false end) (strings_of o) then 0 else 1
+                                      | _ => false end) (strings_of o)) then 1
+            else
+              (* the printer's layout: on executable documents the printed text is print_doc of the
+                 (model's) AST of the source *)
+              match parse (unhex src) with
+              | Ok (d0, _) =>
+                if negb (exec_only d0) then 0
+                else if negb (gt_eqb false (g_doc d0) o) then 1
+                else if negb (bytes_eqb (print_doc d0) (unhex printed)) then 1
+                (* the hypothesis of C08_lex_layout holds for this document's layout, unless a string
+                   has multi-byte content (not covered by the theorem) *)
+                else if layout_wfb (lay_doc d0) || negb (forallb (forallb (fun c => c <? 128)) (strings_of o)) then 0 else 1
+              | _ => 1
+              end
           | _ => 1
           end
       end
